@@ -40,7 +40,7 @@ def run(tier, seed):
                        "Hugr.resolve_extensions is proved over the graph-store contracts of C04 (iteration and node lookup, contracts/base.py): every live node holding an opaque operation gets exactly the result of "
                        "resolving it, every other node keeps its operation object, the node table is unchanged, only NodeData.op is written (frame)"]
     hugr_files = [os.path.join(VERIF, "contracts", f) for f in ("base.py", "resolve.py", "tys.py", "resolve_hugr.py")]
-    standard_flow(res, FILES, TARGETS, None, bounded_modules=[("bounded.c11", 300, 1200)],
+    standard_flow(res, FILES, TARGETS, None, bounded_modules=[("bounded.c11", 900, 1200)],
                   more=[(hugr_files, ["hugr.hugr.base.Hugr.resolve_extensions"])])
     from checks.common import replay_header
     for g in ground():
